@@ -181,7 +181,9 @@ def evaluate(case):
                             depth += 1
                         elif e[3] in ("lcancel_ret", "fcancel_ret"):
                             depth -= 1
-                            if depth == 0 and e[4]["result"] is True:
+                            # (cancel() also says True for a future that was cancelled already - by the user, a timeout, or born
+                            # cancelled: that is not a future the shutdown cancelled)
+                            if depth == 0 and e[4]["result"] is True and e[4].get("pre") not in ("CANCELLED", "CANCELLED_AND_NOTIFIED"):
                                 n_ok += 1
                 got = val(key("shutdown_cancel", executor=N))
                 if got != n_ok:
@@ -228,6 +230,7 @@ def account(ctx, case, viols, info, extra=()):
 LAYER = {
     "map": lambda n: {"kind": "map", "fn": [["app", "m"]], "err": None, "name": n, "tap": True},
     "flat_map": lambda n: {"kind": "flat_map", "fn": [["futarg", "done"]], "err": None, "name": n, "tap": True},
+    "flat_map-cancelled": lambda n: {"kind": "flat_map", "fn": [["futarg", "cancelled"]], "err": None, "name": n, "tap": True},
     "retry": lambda n: {"kind": "retry", "policy": {"type": "exc", "max_attempts": 3, "sleep": 0.5, "exponent": 1.0, "base": ["E0"]}, "name": n, "tap": True},
     "poll": lambda n: {"kind": "poll", "interval": 0.5, "per_sub": {}, "calls": [{}, {}, {"raise": "E2"}, {}], "name": n, "tap": True},
     "throttle": lambda n: {"kind": "throttle", "count": 1, "name": n, "tap": True},
@@ -269,7 +272,8 @@ def case_strategy():
         fnames = ["f%d" % i for i in range(nsub)]
         t0 = []
         for f in fnames:
-            t0.append(["submit", "ex", f, {"script": draw(st.sampled_from([[["tag"]], [["raise", "E0"], ["tag"]], [["raise", "E0"], ["raise", "E0"], ["raise", "E0"]], [["raise", "E2"]]]))}])
+            t0.append(["submit", "ex", f, {"script": draw(st.sampled_from([[["tag"]], [["raise", "E0"], ["tag"]], [["raise", "E0"], ["raise", "E0"], ["raise", "E0"]], [["raise", "E2"]],
+                                                                       [["raise", "CE"]]]))}])  # CE: fails WITH a CancelledError instance
         t0.append(["sleep", 0.01])
         acts = []
         for _ in range(draw(st.integers(1, 6))):
@@ -320,6 +324,19 @@ def catalog():
                   ["add_cb", "f0", "slow", ["op", ["sleep", 1.0]]], ["sleep", 0.5], ["submit", "ex", "f1", {"script": [["tag"]]}]],
         "threads": [[["sleep", 0.7], ["cancel", "f1"]]],
         "settle": 2.5, "final": sample_ops(["f0", "f1"])}
+    # futures that are already cancelled when the cancel-on-shutdown layer gets them (the flat_map function returned a cancelled
+    # future) are not "cancelled by shutdown"
+    out["born-cancelled-under-cos"] = {
+        "setup": [["build", "ex", {"base": {"kind": "sync"}, "layers": [LAYER["flat_map-cancelled"]("n0"), LAYER["cos"]("n1")]}],
+                  ["submit", "ex", "f0", {"script": [["tag"]]}], ["submit", "ex", "f1", {"script": [["tag"]]}], ["sleep", 0.1]],
+        "threads": [[["sleep", 0.5], ["shutdown", "ex", True]]],
+        "settle": 1.0, "final": sample_ops(["f0", "f1"])}
+    # a callable that fails with a CancelledError instance (it waited on some other, cancelled future) has failed, not been cancelled
+    out["fails-with-cancellederror"] = {
+        "setup": [["build", "ex", {"base": {"kind": "manual"}, "layers": [LAYER["retry"]("n0"), LAYER["map"]("n1")]}],
+                  ["submit", "ex", "f0", {"script": [["raise", "CE"]]}], ["submit", "ex", "f1", {"script": [["tag"]]}], ["sleep", 0.1]],
+        "threads": [[["sleep", 0.5], ["runall", "ex"]]],
+        "settle": 1.0, "final": sample_ops(["f0", "f1"])}
     # two threads calling shutdown() on the same executor at the same instant: the "executors in use" gauge is decremented once
     for lname in ("map", "retry", "throttle", "poll", "timeout", "cos"):
         out["double-shutdown/" + lname] = {
